@@ -614,10 +614,78 @@ def path_dnf(tb, target, max_paths=256, include_asserts=False):
     fn = tb.fn
     rpoi = {b: i for i, b in enumerate(cfg.rpo)}
     memo = {}
+    # boolean temporaries that are only ever assigned the constants true/false (the result of `matches!`, `a && b`,
+    # a match producing a bool): a branch on such a local is decided by which assignment the path went through
+    flags = getattr(fn, "_const_bools", None)
+    if flags is None:
+        cand, bad_ = {}, set()
+        for blk in fn.blocks:
+            if blk["cleanup"]:
+                continue
+            for s_ in blk["stmts"]:
+                if s_["s"] == "assign" and not s_["lhs"]["proj"]:
+                    l_ = s_["lhs"]["l"]
+                    rv = s_["rv"]
+                    if rv["r"] == "use" and rv["a"].get("o") == "const" and isinstance(rv["a"].get("ty"), dict) and rv["a"]["ty"].get("k") == "bool":
+                        cand.setdefault(l_, []).append(blk["i"])
+                    else:
+                        bad_.add(l_)
+            tt = blk["term"]
+            if tt["t"] == "call":
+                bad_.add(tt["dest"]["l"])
+        flags = {l_: bs for l_, bs in cand.items() if l_ not in bad_ and len(bs) >= 2 and l_ > fn.argc}
+        fn._const_bools = flags
+
+    def flag_assigns(p):
+        """{flag local: bool} assigned in block p (last assignment wins)"""
+        out = {}
+        for s_ in fn.blocks[p]["stmts"]:
+            if s_["s"] == "assign" and not s_["lhs"]["proj"] and s_["lhs"]["l"] in flags:
+                out[s_["lhs"]["l"]] = bool(s_["rv"]["a"].get("v"))
+        return out
+
+    def flag_of_discr(p):
+        """(flag local, negated?) when block p branches on a constant-assigned boolean (through copies / !)"""
+        t = fn.blocks[p]["term"]
+        o = t["discr"]
+        neg = False
+        for _ in range(6):
+            if not (isinstance(o, dict) and o.get("o") in ("copy", "move") and not o["proj"]):
+                return None
+            l_ = o["l"]
+            if l_ in flags and l_ not in flag_assigns(p):
+                return l_, neg
+            d = None
+            for s_ in fn.blocks[p]["stmts"]:
+                if s_["s"] == "assign" and s_["lhs"]["l"] == l_ and not s_["lhs"]["proj"]:
+                    d = s_
+            if d is None:
+                return None
+            if d["rv"]["r"] == "use":
+                o = d["rv"]["a"]
+            elif d["rv"]["r"] == "unop" and d["rv"]["op"] == "Not":
+                o = d["rv"]["a"]
+                neg = not neg
+            else:
+                return None
+        return None
 
     def edge_conds(p, b):
         t = fn.blocks[p]["term"]
         if t["t"] == "switch":
+            if t["dty"].get("k") == "bool" and flags:
+                fd = flag_of_discr(p)
+                if fd is not None:
+                    f = [tgt for v, tgt in t["arms"] if v == 0]
+                    ft = f[0] if f else None
+                    truth = None
+                    if b == t["otherwise"] and b != ft:
+                        truth = True
+                    elif b == ft and b != t["otherwise"]:
+                        truth = False
+                    if truth is None:
+                        return []
+                    return [(("flagval", fd[0]), truth != fd[1])]
             c = tb.operand(p, None, t["discr"])
             if t["dty"].get("k") == "bool":
                 f = [tgt for v, tgt in t["arms"] if v == 0]
@@ -651,15 +719,25 @@ def path_dnf(tb, target, max_paths=256, include_asserts=False):
                 memo[b] = None
                 return None
             ec = edge_conds(p, b)
+            fa = flag_assigns(p) if flags else {}
             for conj in ps:
                 c2 = set(conj)
                 bad = False
+                for l_, val in fa.items():
+                    c2 = {x for x in c2 if not (x[0][0] == "flagset" and x[0][1] == l_)}
+                    c2.add((("flagset", l_, val), True))
                 for (c, v) in ec:
                     if c[0] == "const":
                         # branch on a compile-time constant (cfg!(..)): the other edge is dead
                         if bool(c[1]) != v:
                             bad = True
                         continue
+                    if c[0] == "flagval":
+                        known = [x[0][2] for x in c2 if x[0][0] == "flagset" and x[0][1] == c[1]]
+                        if known:
+                            if known[0] != v:
+                                bad = True
+                            continue
                     if (c, not v) in c2:
                         bad = True
                     c2.add((c, v))
@@ -671,7 +749,10 @@ def path_dnf(tb, target, max_paths=256, include_asserts=False):
             return None
         memo[b] = out
         return out
-    return rec(target)
+    res = rec(target)
+    if res is not None and flags:
+        res = simplify_dnf([frozenset(x for x in cj if x[0][0] != "flagset") for cj in res])
+    return res
 
 
 def simplify_dnf(dnf):
